@@ -103,6 +103,23 @@ def gen_cases(tier, seed):
             if case["universe"] == "words" and mrng.random() < 0.3:
                 # keeps expanding verified classes: the work must not depend on when it was polled
                 case["expand_verified"] = True
+        orng = intuniv.rng_for(seed, "C17/offset", i)
+        if case["universe"] == "words" and orng.random() < 0.15 and not case["cls"].get("right") \
+                and not case["cls"].get("flags"):
+            case["label_offset"] = 300
+            # ... with long equivalence chains (symmetry plus several inferral steps) and an
+            # interruption early enough for the specification to be extracted after the restore
+            from vdrive import c12
+
+            case["pack"].update(sym=True, inferral=orng.sample(["minimise", "rename", "merge", "deadstat"], 3),
+                                iterative=False, factory=None)
+            case["cls"] = c12.add_redundant(case["cls"], orng)
+            if len(case["cls"]["stats"]) < 2:
+                case["cls"]["stats"] = [["r_1", case["cls"]["alphabet"][0]], ["r_0", case["cls"]["alphabet"][0]]]
+            if case["pack"]["ver"] in ("libatom", "subatom"):
+                case["pack"]["ver"] = "stat"  # the library's atom strategy refuses classes with statistics
+            case["db"] = orng.choice(("base", "forget"))
+            case["k"] = orng.choice((1, 2, 3, 4, 6, 8))
         case.update(id=produced, N=N[tier])
         produced += 1
         yield case
@@ -192,7 +209,18 @@ def build(case):
     from comb_spec_searcher import CombinatorialSpecificationSearcher
 
     if case["universe"] == "words":
-        return gen.build_searcher(case)
+        s = gen.build_searcher(case)
+        if case.get("label_offset"):
+            # the class database already holds a few hundred classes (labels asked for earlier):
+            # the labels of the search are large integers - after a pickle round trip equal labels
+            # are no longer the same object
+            root = s.classdb.get_class(s.start_label)
+            if getattr(root, "right", None) is None:
+                a = root.alphabet
+                for i in range(case["label_offset"]):
+                    word = "".join(a[int(d) % len(a)] for d in format(i, "o")) + a[0] * 12
+                    s.classdb.get_label(root.with_(prefix=word, just_prefix=True, stats=(), proper=False, flags=""))
+        return s
     pack = table.build_pack(case["table"], iterative=case["iterative"])
     return CombinatorialSpecificationSearcher(table.Lab(0), pack, ruledb=gen.build_db(case["db"]))
 
